@@ -98,7 +98,7 @@ fn tok_snap(w: &World, tok: &str, known: &BTreeSet<String>, errs: &mut Vec<Strin
     let mut enumerated = vec![];
     let mut start: Option<String> = None;
     loop {
-        match w.q::<AllAccountsResponse, _>(tok, &Cw20QueryMsg::AllAccounts { start_after: start.clone(), limit: Some(30) }) {
+        match w.q::<AllAccountsResponse, _>(tok, &Cw20QueryMsg::AllAccounts { start_after: start.clone(), limit: Some(ENUM_PAGE) }) {
             Ok(r) => {
                 if r.accounts.is_empty() {
                     break;
@@ -106,7 +106,7 @@ fn tok_snap(w: &World, tok: &str, known: &BTreeSet<String>, errs: &mut Vec<Strin
                 start = r.accounts.last().cloned();
                 let n = r.accounts.len();
                 enumerated.extend(r.accounts);
-                if n < 30 || enumerated.len() > 10_000 {
+                if n < ENUM_PAGE as usize || enumerated.len() > 10_000 {
                     break;
                 }
             }
@@ -144,6 +144,8 @@ pub fn known_addresses(w: &World) -> BTreeSet<String> {
 /// small pages on purpose: pagination of AllHistory is exercised at every snapshot (C07 compares the paged answer
 /// with the raw storage)
 pub const HISTORY_PAGE: u32 = 8;
+/// page size for AllAccounts / Holders enumerations (small, so that `start_after` paging is exercised constantly)
+pub const ENUM_PAGE: u32 = 7;
 
 pub fn all_history(w: &World, errs: &mut Vec<String>) -> Vec<Hist> {
     let mut out: Vec<Hist> = vec![];
@@ -319,7 +321,7 @@ pub fn take(w: &World) -> Snap {
     let mut holders_enumerated = vec![];
     let mut start: Option<String> = None;
     loop {
-        match w.q::<basset::reward::HoldersResponse, _>(REWARD, &basset::reward::QueryMsg::Holders { start_after: start.clone(), limit: Some(30) }) {
+        match w.q::<basset::reward::HoldersResponse, _>(REWARD, &basset::reward::QueryMsg::Holders { start_after: start.clone(), limit: Some(ENUM_PAGE) }) {
             Ok(r) => {
                 let n = r.holders.len();
                 if n == 0 {
@@ -327,7 +329,7 @@ pub fn take(w: &World) -> Snap {
                 }
                 start = r.holders.last().map(|x| x.address.clone());
                 holders_enumerated.extend(r.holders.into_iter().map(|x| x.address));
-                if n < 30 || holders_enumerated.len() > 10_000 {
+                if n < ENUM_PAGE as usize || holders_enumerated.len() > 10_000 {
                     break;
                 }
             }
